@@ -393,6 +393,14 @@ C19_OnlyGAS(e) ==
     /\ e.k = "GAS" /\ e.u \in e.S /\ Leq(e.amt, gas[e.u]) => e.res = "HALT" /\ gas' = Move(gas, e.u, e.v, e.amt)
     /\ e.k = "NEO" /\ e.v = "alph" /\ e.u \in e.S /\ neo[e.u] >= e.w
           => e.res = "HALT" /\ neo'["alph"] = neo["alph"] + e.w /\ neo'[e.u] = neo[e.u] - e.w
+\* the configured fees change only when the Alphabet approves it: with Notary the chain's Alphabet account (2n/3+1;
+\* not the committee majority n/2+1, not the accounts of the stored keys, not a single member), without Notary the
+\* vote that completes the quorum of the stored keys for the decision id
+C19_FeeApproved(rd, e) ==
+  wfee' # wfee \/ cfee' # cfee =>
+    /\ e.act = "setFee" /\ e.res = "HALT"
+    /\ IF notary THEN "ALPHA" \in e.S
+       ELSE Cardinality(MembersOf(e)) > 1 \/ (Cardinality(MembersOf(e)) = 1 /\ Fires(rd, e))
 \* nothing but the operations above moves GAS of the tracked accounts
 C19_NoOtherMoves(e) ==
   e.act \in {"candRemove", "setFee", "alphaSame", "designate"} \/ e.res = "FAULT" => gas' = gas
